@@ -675,6 +675,117 @@ def index_agreement(ctx, rule='C08.index-agreement'):
     return res
 
 
+def key_order(ctx, rule='C08.key-order'):
+    """keys are ordered, compared and hashed as plain byte strings: the comparison traits of the key carrier `Bytes` are functions of `as_ref()` of both operands, in order,
+    delegating to the slice's own method, and `as_ref` / `size` give, for every variant, that variant's own payload.  (Search, merge, split and the ordering of committed pages all
+    go through these impls; a variant-dependent or reversed comparison makes the same key sort differently depending on where it came from.)"""
+    res = []
+    F = ctx.facts
+    adt = F.adt('Bytes')
+    if not adt or len(adt['variants']) < 2:
+        return [unresolved(rule, 'type Bytes')]
+    fns = {}
+    for f in F.fns:
+        if f.kind == 'Closure' or not f.self_adt or last_seg(f.self_adt) != 'Bytes' or 'bytes::' not in f.path and not f.path.startswith('<bytes::'):
+            pass
+        if f.kind != 'Closure' and f.self_adt and last_seg(f.self_adt) == 'Bytes' and F.adt('Bytes') is not None:
+            tr = last_seg(f.trait) if f.trait else ''
+            fns[(tr, f.name)] = f
+    n = 0
+
+    def as_ref_of(e, i):
+        return e[0] == 'call' and last_seg(strip_generics(e[1])) == 'as_ref' and len(e[2]) == 1 and e[2][0] == ('arg', i)
+
+    for (tr, nm), same in ((('Ord', 'cmp'), 'cmp'), (('PartialEq', 'eq'), 'eq')):
+        f = fns.get((tr, nm))
+        if f is None:
+            continue
+        n += 1
+        e = ctx.du(f).sym({'k': 'move', 'p': {'l': 0, 'pr': []}})
+        good = e[0] == 'call' and last_seg(strip_generics(e[1])) == same and len(e[2]) == 2 and as_ref_of(e[2][0], 1) and as_ref_of(e[2][1], 2)
+        if nm == 'eq' and not good:
+            good = e[0] == 'call' and last_seg(strip_generics(e[1])) == same and len(e[2]) == 2 and as_ref_of(e[2][0], 2) and as_ref_of(e[2][1], 1)
+        if good:
+            res.append(ok(rule, '%s is `self.as_ref().%s(other.as_ref())`' % (f.qual, same), sites=1))
+        else:
+            import c16
+            res.append(bad(rule, '%s | not the byte-string %s of the two operands' % (f.qual, 'order' if nm == 'cmp' else 'equality'),
+                           '%s returns `%s`, not `self.as_ref().%s(other.as_ref())`: keys would not be %s as plain byte strings (reversed, truncated or variant-dependent)'
+                           % (f.qual, c16._fmt(e)[:160], same, 'ordered' if nm == 'cmp' else 'compared'), where='%s:%d' % (f.file, f.line)))
+    f = fns.get(('PartialOrd', 'partial_cmp'))
+    if f is not None:
+        n += 1
+        du = ctx.du(f)
+        okk = False
+        for bb, t, c in calls_named(F, f, 'cmp', 'partial_cmp'):
+            a = [du.sym(x) for x in t['args']]
+            if len(a) == 2 and ((a[0] == ('arg', 1) and a[1] == ('arg', 2)) or (as_ref_of(a[0], 1) and as_ref_of(a[1], 2))):
+                okk = True
+        if okk:
+            res.append(ok(rule, '%s delegates to the total order with the operands in order' % f.qual, sites=1))
+        else:
+            res.append(bad(rule, '%s | does not delegate to cmp(self, other)' % f.qual,
+                           '%s does not compute `self.cmp(other)` (operands in that order): `<`, `>` and sorting of keys disagree with `Ord::cmp`' % f.qual, where='%s:%d' % (f.file, f.line)))
+    f = fns.get(('Hash', 'hash'))
+    if f is not None:
+        n += 1
+        du = ctx.du(f)
+        okk = any(t['args'] and as_ref_of(du.sym(t['args'][0]), 1) for bb, t, c in calls_named(F, f, 'hash'))
+        if okk:
+            res.append(ok(rule, '%s hashes `self.as_ref()`' % f.qual, sites=1))
+        else:
+            res.append(bad(rule, '%s | does not hash the bytes' % f.qual, '%s does not hash `self.as_ref()`: equal keys held in different variants would land in different hash buckets '
+                           '(the per-transaction bucket cache is a HashMap keyed by name)' % f.qual, where='%s:%d' % (f.file, f.line)))
+    # as_ref / size: every variant, its own payload
+    nv = {v['vi']: v['name'] for v in adt['variants']}
+    for key in (('AsRef', 'as_ref'), ('', 'size')):
+        f = fns.get(key)
+        if f is None:
+            continue
+        n += 1
+        if key[1] == 'size':
+            e = ctx.du(f).sym({'k': 'move', 'p': {'l': 0, 'pr': []}})
+            if e[0] == 'call' and last_seg(strip_generics(e[1])) == 'len' and len(e[2]) == 1 and as_ref_of(e[2][0], 1):
+                res.append(ok(rule, '%s is `self.as_ref().len()`' % f.qual, sites=1))
+                continue
+        sw = None
+        for bb in sorted(f.reachable_blocks()):
+            t = f.term(bb)
+            if t['k'] == 'switch':
+                for st in f.blocks[bb]['stmts']:
+                    if st['k'] == 'assign' and st['rv']['k'] == 'discr' and st['rv'].get('adt') and last_seg(st['rv']['adt']) == 'Bytes' and st['p']['l'] == op_local(t['discr']):
+                        sw = (bb, t)
+        if sw is None:
+            res.append(bad(rule, '%s | no match on the variant' % f.qual, '%s does not match on the variant of Bytes' % f.qual, where='%s:%d' % (f.file, f.line)))
+            continue
+        bb0, t = sw
+        tg = dict((v, b) for v, b in t['targets'])
+        miss = [nv[v] for v in nv if v not in tg and f.term(t['otherwise'])['k'] == 'unreachable']
+        wrong = []
+        for v, b in t['targets']:
+            region = f.reach_from([b], avoid={bb0}) - set().union(*[f.reach_from([b2], avoid={bb0}) for v2, b2 in t['targets'] if b2 != b] or [set()])
+            used = set()
+            for rb in region | {b}:
+                for st in f.blocks[rb]['stmts']:
+                    for pl in ([st['p']] if st['k'] == 'assign' else []) + ([st['rv']['p']] if st['k'] == 'assign' and st['rv']['k'] in ('ref', 'rawptr', 'discr') else []) + \
+                              ([op_place(st['rv']['op'])] if st['k'] == 'assign' and st['rv']['k'] in ('use', 'cast') and op_place(st['rv']['op']) is not None else []):
+                        for pe in pl['pr']:
+                            if pe['k'] == 'downcast' and pe.get('adt') and last_seg(pe['adt']) == 'Bytes':
+                                used.add(pe.get('vi'))
+            if used and used != {v}:
+                wrong.append((nv.get(v, v), sorted(nv.get(u, u) for u in used)))
+        if miss or wrong:
+            res.append(bad(rule, '%s | variant arms' % f.qual,
+                           '%s does not give every variant its own payload (%s)' % (f.qual, '; '.join(['missing arms: %s' % miss] * bool(miss) + ['arm %s reads %s' % w for w in wrong])),
+                           where='%s:%d' % (f.file, f.line)))
+        else:
+            res.append(ok(rule, '%s has one arm per variant (%d), each reading its own payload' % (f.qual, len(tg)), sites=len(tg)))
+    fl = floor(rule, 'comparison / view functions of the key carrier', n, 5)
+    if fl:
+        res.append(fl)
+    return res
+
+
 def run(ctx, tier):
     results = []
     results += bounds_total(ctx)
@@ -690,6 +801,9 @@ def run(ctx, tier):
     results += index_bounds(ctx)
     results += stack_never_emptied(ctx)
     results += index_agreement(ctx)
+    results += key_order(ctx)
+    import c01
+    results += c01.carriers(ctx, rule='C08.carriers')
     return dict(
         results=results, stats=dict(ctx.stats),
         explanation=(
